@@ -131,6 +131,7 @@ struct Gen {
     if (op == OP_BRACKET || op == OP_JT_MUL) { s.op.ka = K_OWN; s.op.kb = K_OWN; }
     if (inf.nout) s.op.mask = (uint8_t)rng.below(1u << inf.nout);
     if (inf.nout && rng.chance(0.2)) s.op.variant |= (uint8_t)(rng.below(4));   // bind outputs into blocks
+    if (rng.chance(0.3)) s.op.variant |= V_FRESH;   // thread-private temporary view instead of the shared Map object
     if (rng.chance(0.15) && (op == OP_INTERP_SLERP || op == OP_INTERP_CUBIC || op == OP_INTERP_SMOOTH || op == OP_T_SCALE)) s.op.variant |= V_ALT;
     return s;
   }
